@@ -14,7 +14,7 @@ pub open spec fn mk_module_error(k: ModuleErrorKind) -> ModuleGraphError {
 /// What checking one resolution of one dependency of module `m` reports (None: nothing).
 ///  - a failed resolution is reported as such (for the kind it was resolved for);
 ///  - an `https:` module importing an `http:` target: invalid downgrade;
-///  - a remote (`http:`/`https:`) module importing a `file:` target through a literal `file://…`
+///  - a remote (`http:`/`https:`) module importing a `file:` target through a literal `file:…` url (leading white space ignored, any case)
 ///    specifier text: invalid local import;
 ///  - when dynamic edges are followed, a target whose entry (through redirects) is a "missing"
 ///    error is reported here, at the importing dependency (as missing-dynamic for dynamic ones).
@@ -26,7 +26,7 @@ pub open spec fn check_res_spec(g: ModuleGraph, fd: bool, m: Module, kind: Resol
             let ss = url_scheme(resolved.specifier);
             if rs == "https"@ && ss == "http"@ {
                 Some(for_kind(kind, ResolutionError::InvalidDowngrade { specifier: resolved.specifier, range: resolved.range }))
-            } else if (rs == "https"@ || rs == "http"@) && ss == "file"@ && "file://"@.is_prefix_of(str_lower(text)) {
+            } else if (rs == "https"@ || rs == "http"@) && ss == "file"@ && "file:"@.is_prefix_of(str_lower(str_trim_start(text))) {
                 Some(for_kind(kind, ResolutionError::InvalidLocalImport { specifier: resolved.specifier, range: resolved.range }))
             } else if fd {
                 match slot_at(g, resolve_spec(g, resolved.specifier)) {
